@@ -23,6 +23,12 @@ CFG = {
         "Swat4.C15.mem_filter",
         "Swat4.C15.refresh_pred",
         "Swat4.C15.revive_pred",
+        "Swat4.C15.added_view",
+        "Swat4.C15.added_count",
+        "Swat4.C15.refresh_one_per_server",
+        "Swat4.C15.revive_one_per_server",
+        "Swat4.C15.revive_at_most_one_per_server",
+        "Swat4.C15.overlongState_keyed",
     ],
     "shards": (4, 16),
     "nontrivial": _nontrivial,
@@ -43,7 +49,9 @@ CFG = {
                 "server (selection = the declarative predicate: refresh_pred / revive_pred), with exactly the stated fields, ready and expiry times, "
                 "leaves the registry untouched and reports the number selected (= enqueued when countdown <= interval); revive_overlong (any countdown, in particular countdown > interval, no hypotheses: the queue grows by exactly the selected "
                 "servers whose drawn ready time is before the deadline while the reported count is the number selected; concrete instance with count 1 and nothing queued); revive_empty_window (scope <= "
-                "interval: nothing), revive_ready_window (ready in [now, now+countdown), = now for countdown 0). Unbounded registry size, by induction "
+                "interval: nothing), refresh_one_per_server / revive_one_per_server (under Keyed - every registry row stored under the key of its own address, the C09/C10 invariant - "
+                "for EVERY address a the number of appended probes addressed to a is exactly 1 if a selected server has that address and 0 otherwise, and the appended items are as many as the selected servers; "
+                "revive_at_most_one_per_server for any countdown), revive_ready_window (ready in [now, now+countdown), = now for countdown 0). Unbounded registry size, by induction "
                 "over the selection. Tied to refreshservers.go / reviveservers.go and the components' request construction by full-queue comparison on "
                 "generated registries and settings.",
         "level_note": "Trusted: Lean kernel (propext, Quot.sound, Classical.choice); the abstract registry/queue as the meaning of the repositories (C10/C11); "
